@@ -68,8 +68,6 @@ RESIDUAL = {
     ("flussab_aiger::binary::Parser::new", "Mul", "max_var_index"): "same: 2M + 1 <= MAX_CODE",
     ("flussab_aiger::binary::Parser::new", "Add", "max_var_index"): "same: 2M + 1 <= MAX_CODE",
     ("flussab_aiger::binary::Parser::new", "Add", "input_count"): "I <= M <= (MAX_CODE - 1) / 2 < usize::MAX, so I + 1 cannot overflow",
-    ("flussab_aiger::binary::ParseLatches::next_latch", "Add", "code"): "code <= 2 (I + L + A + 1) <= 2 (M + 1); reaching the last step needs M latch / gate records to have been consumed",
-    ("flussab_aiger::binary::ParseAndGates::next_and_gate", "Add", "code"): "same bound as next_latch",
     ("flussab::text::signed_ascii_digits_multi", "OverflowNeg", ""): "the kernel value has at most 7 digits here (< 10^7), far from i32::MIN",
     ("flussab::text::swar_ascii_digits_u64_le", "Sub", "64"): "shift = trailing_zeros() & !7 <= 64",
     ("flussab_cnf::token::clause_lits", "OverflowNeg", ""): "limit is L::MAX_DIMACS or a header var_count <= MAX_DIMACS: positive, never isize::MIN",
